@@ -182,7 +182,7 @@ func (g *c19GenState) deleteRes() {
 	}
 	st := c19Step{Op: "dr", AV: av, Kind: t.Kind, Name: t.Name, Policy: Pick(g.r, []string{"", "", "Background", "Foreground", "Orphan"})}
 	if g.r.Chance(1, 8) {
-		st.WO = []string{Pick(g.r, []string{"ok", "ok", "fail", "forbidden", "timeout", "transport", "deadline", "notFound"}), Pick(g.r, []string{"ok", "fail", "conflict", "notFound", "forbidden", "invalid", "timeout"})}
+		st.WO = []string{Pick(g.r, []string{"ok", "ok", "fail", "forbidden", "timeout", "transport", "deadline", "notFound", "noKindMatch", "noResourceMatch", "tooManyRequests", "unavailable"}), Pick(g.r, []string{"ok", "fail", "conflict", "notFound", "forbidden", "invalid", "timeout"})}
 		g.feat["hookfault"] = true
 	}
 	if g.lag && g.r.Chance(1, 3) {
@@ -679,6 +679,53 @@ func c19GenTeardown(r *Rng) c19Scn {
 	// the using resource goes away for good: the used resource is released
 	steps = append(steps, replace[0], run, run, drUsed())
 	return c19Scn{MaxC: Pick(r, []int{1, 1, 2}), Steps: steps}
+}
+
+// c19GenTeardownSel: a composed Usage that names its using resource by spec.by.resourceSelector,
+// holds the finalizer from creation (templated) and is deleted BEFORE the selector was ever
+// resolved and persisted (no reconcile yet, or only reconciles whose selector List failed / found
+// nothing), while the using resource exists. The deletion reconciles' selector List fails with an
+// API error class (timeout, 429, NoKindMatch, ... ) at random: the Usage must neither lose the
+// finalizer nor the used resource its label until the using resource is gone.
+func c19GenTeardownSel(r *Rng) c19Scn {
+	used := c19ResID{"ex.org/v1", "Thing", "r0"}
+	using := c19ResID{"ex.org/v1", "Other", "r1"}
+	classes := []string{"", "timeout", "tooManyRequests", "unavailable", "noKindMatch", "noResourceMatch", "deadline", "forbidden", "transport"}
+	crUsing := c19Step{Op: "cr", AV: using.AV, Kind: using.Kind, Name: using.Name, Labels: map[string]string{"app": "web"}}
+	steps := []c19Step{
+		{Op: "cr", AV: used.AV, Kind: used.Kind, Name: used.Name, Labels: map[string]string{"app": "db"}, InUse: r.Bool()},
+	}
+	late := r.Chance(1, 3) // the using resource appears only after the first (failing) reconcile
+	if !late {
+		steps = append(steps, crUsing)
+	}
+	steps = append(steps, c19Step{Op: "cu", Name: "u0", Composed: true, Fin: true,
+		Of: &c19RSpec{AV: Pick(r, c19Versions(used.AV)), Kind: used.Kind, Name: used.Name},
+		By: &c19RSpec{AV: using.AV, Kind: using.Kind, Sel: &c19Sel{Labels: map[string]string{"app": "web"}}}})
+	failing := func() []c19Step {
+		// Get the Usage, then the selector List fails with a class
+		return []c19Step{{Op: "start", U: "u0"}, {Op: "step", U: "u0", O: "ok"}, {Op: "step", U: "u0", O: "fail", E: Pick(r, classes)}, {Op: "run", U: "u0"}}
+	}
+	if r.Bool() {
+		steps = append(steps, failing()...) // a first reconcile that resolves nothing
+	}
+	if late {
+		steps = append(steps, crUsing)
+	}
+	steps = append(steps, c19Step{Op: "du", Name: "u0"})
+	drUsed := func() c19Step {
+		return c19Step{Op: "dr", AV: Pick(r, c19Versions(used.AV)), Kind: used.Kind, Name: used.Name, Policy: Pick(r, []string{"", "Foreground"})}
+	}
+	for i, n := 0, r.Range(1, 3); i < n; i++ {
+		steps = append(steps, failing()...)
+		if r.Bool() {
+			steps = append(steps, drUsed())
+		}
+	}
+	steps = append(steps, c19Step{Op: "run", U: "u0"}, drUsed())
+	// the using resource goes away: the next reconciles release the used resource
+	steps = append(steps, c19Step{Op: "dr", AV: using.AV, Kind: using.Kind, Name: using.Name}, c19Step{Op: "run", U: "u0"}, c19Step{Op: "run", U: "u0"}, drUsed())
+	return c19Scn{MaxC: 1, Steps: steps}
 }
 
 // c19OwnerExhaustive: for each variant, the replacement of the using resource at every position
@@ -1384,7 +1431,11 @@ func init() {
 			case w >= 20:
 				s, fam = c19GenTwoKeys(r), "2ks"
 			case w >= 18:
-				s, fam = c19GenTeardown(r), "tdn"
+				if r.Chance(1, 3) {
+					s, fam = c19GenTeardownSel(r), "tds"
+				} else {
+					s, fam = c19GenTeardown(r), "tdn"
+				}
 			case w < 5:
 				s = c19GenRandom(r)
 			case w < 8:
